@@ -70,7 +70,7 @@ def floors(tier):
     return {"fixtures": 2500, "fixtures_exhaustive_vectors": 600, "fixtures_last_valid_earlier_bad": 300,
             "subprocess_runs": 30 if tier == "quick" else 100, "stdin_fixtures": 40, "base_uri_fixtures": 40,
             "validator_option_fixtures": 100, "validator_vs_dollar_schema_fixtures": 150, "mode:plain-custom": 500, "mode:plain-default": 300, "mode:pretty": 500, "mode:plain-empty": 300,
-            "exit0": 100, "exit_nonzero": 1000, "fixtures_long_lists": 10, "indexed_error_formats": 100, "validation_chunks_checked": 3000, "load_diagnostics_checked": 1500}
+            "exit0": 100, "exit_nonzero": 1000, "fixtures_long_lists": 10, "indexed_error_formats": 100, "validation_chunks_checked": 2500, "load_diagnostics_checked": 1500}
 
 
 class Fixture:
